@@ -6,6 +6,7 @@ import PV.Scalar
 import PV.Props.C07Alg
 import Mathlib.Data.List.Forall2
 import PV.Model.Gls
+import PV.Proofs.GlsBridge
 
 namespace PV
 
@@ -79,6 +80,33 @@ theorem c07_gls_normal_equations (A W : Mat) (y p : List Rat) (S : Mat) (h : gls
 /-- non-vacuity: a straight-line fit through three points with unit weights -/
 example : gls [[1, 0], [1, 1], [1, 2]] [[1, 0, 0], [0, 1, 0], [0, 0, 1]] [1, 3, 5]
     = some ([1, 2], [[5 / 6, 1 / 3, -1 / 6], [-1 / 2, 0, 1 / 2]]) := by decide +kernel
+
+/-- **C07 (the executable closed form IS the GLS estimator).**  For a well-shaped design matrix (m points, n
+    parameters), weight matrix and data vector, what `gls` returns satisfies the normal equations as an identity
+    between Mathlib matrices, and whenever the normal matrix is invertible it is `(AᵀWA)⁻¹ AᵀW y` - the estimator of
+    the property statement, whose uniqueness, minimising property and sensitivities are the theorems of C07Alg. -/
+theorem c07_gls_is_estimator (A W : Mat) (y p : List Rat) (S : Mat) (m n : Nat)
+    (hA : Shaped A m n) (hW : Shaped W m m) (hy : y.length = m) (hm : 1 ≤ m)
+    (h : gls A W y = some (p, S)) :
+    ((toM A m n).transpose * toM W m m * toM A m n).mulVec (toV p n) = ((toM A m n).transpose * toM W m m).mulVec (toV y m) ∧
+    (IsUnit ((toM A m n).transpose * toM W m m * toM A m n).det →
+      toV p n = ((toM A m n).transpose * toM W m m * toM A m n)⁻¹.mulVec
+        (((toM A m n).transpose * toM W m m).mulVec (toV y m))) :=
+  gls_is_estimator A W y p S m n hA hW hy hm h
+
+/-- the returned sensitivity matrix is `(AᵀWA)⁻¹ AᵀW`: the gradient with which every fluctuation and covariance
+    input of the data is propagated to the parameters -/
+theorem c07_gls_sensitivity (A W : Mat) (y p : List Rat) (S : Mat) (m n : Nat)
+    (hA : Shaped A m n) (hW : Shaped W m m) (hm : 1 ≤ m) (hn : 1 ≤ n)
+    (h : gls A W y = some (p, S)) :
+    ((toM A m n).transpose * toM W m m * toM A m n) * toM S n m = (toM A m n).transpose * toM W m m ∧
+    (IsUnit ((toM A m n).transpose * toM W m m * toM A m n).det →
+      toM S n m = ((toM A m n).transpose * toM W m m * toM A m n)⁻¹ * ((toM A m n).transpose * toM W m m)) :=
+  gls_sensitivity A W y p S m n hA hW hm hn h
+
+/-- the shape hypotheses are satisfiable (the straight-line example above) -/
+example : Shaped [[1, 0], [1, 1], [1, 2]] 3 2 ∧ Shaped [[1, 0, 0], [0, 1, 0], [0, 0, 1]] 3 3 := by
+  constructor <;> simp [Shaped]
 
 end executable
 
